@@ -10,9 +10,20 @@
 (*                                                                            *)
 (* Driver steps:                                                              *)
 (*   read c    consumer c issues one advance (ReadOne / Next) of its output     *)
+(*             UNDER ITS OWN CONTEXT (every consumer has one, derived from the *)
+(*             common parent)                                                  *)
 (*   run       worker groups: invoke the Worker (ProcessParallel.Run, ...)     *)
 (*   rel i     release the user function that is holding item i               *)
-(*   close o   Close output o          cancel   cancel the consumers' context  *)
+(*   brel S    BURST: release the user functions holding the items of S (two   *)
+(*             or more) at the same instant - they leave a spin latch together *)
+(*             (GOMAXPROCS raised for the burst), so their hand-offs / sends   *)
+(*             into the shared pipe race; quiescence only after the burst.     *)
+(*             arg = repetitions of the whole schedule on fresh instances      *)
+(*             (the abstract outcome is that of the releases one by one)       *)
+(*   close o   Close output o                                                  *)
+(*   cancel 0  cancel the parent context (every consumer's, and Run's)         *)
+(*   cancel c  cancel the context of consumer c only (constructs with several  *)
+(*             consumers: Split outputs / concurrent ReadOne)                  *)
 (*   relall    release every held user function (clean-up after a stop)        *)
 (*   finish    release everything and drain every consumer to the end          *)
 (*   freerun   (first and only step) no gates, no stepping: every user         *)
@@ -24,19 +35,48 @@
 (*             free-running consumers against an unsynchronised Close of every *)
 (*             output / cancellation - the real scheduler decides where the    *)
 (*             stop lands, including inside the very first advance             *)
+(*   race-fill-close / race-fill-cancel  (first and only step) FillReps fresh  *)
+(*             instances of the race at the other end of the pipe: the input   *)
+(*             is long compared with the pipe, every consumer takes one or two *)
+(*             items and then stops WITHOUT reading on, so the stop lands      *)
+(*             while several senders fill the pipe for the first time and      *)
+(*             compete for its last free slots (user functions return at once) *)
+(*                                                                            *)
+(* Configuration dimensions beyond construct / n / k / cap:                    *)
+(*   cb   "plain": user functions ignore their context and return when         *)
+(*        released; "ctx": they respect it - a held function returns its       *)
+(*        context's error as soon as that context is cancelled, and a call     *)
+(*        made with an already cancelled context returns the error at once     *)
+(*   opt  WorkerGroupConf options of the stage / group: a string over          *)
+(*        e = ContinueOnError, p = ContinueOnPanic,                            *)
+(*        c = IncludeContextExpirationErrors                                   *)
+(*        (no user function fails on its own here, so the options can only     *)
+(*        matter for what the library does with the context errors after a     *)
+(*        stop: C04 demands the same termination for every combination)        *)
 (*                                                                            *)
 (* Observations attached to a step (DESIGN.md 2.3a: always sets / bounds):      *)
 (*   may    items whose output may have been delivered so far (upper bound:    *)
 (*          for a transforming stage only items whose user function returned)  *)
 (*   eofs   consumers that may have seen the end of their output so far        *)
 (*          (C01: only after EVERY item was delivered, unless the run stopped) *)
-(*   must   consumers whose advance must have returned by now (C04: after      *)
-(*          Close / cancel; C01/C04 no-deadlock: when nothing is held any more)*)
+(*   must   consumers whose advance must have returned by now: every consumer  *)
+(*          that is not waiting for a held user function.  C04: after Close /  *)
+(*          cancel of its own output / context ("returns promptly"), and - "a  *)
+(*          finite input always leads to io.EOF (no deadlock)" - ALSO a        *)
+(*          consumer whose own output and context are live while a sibling     *)
+(*          was stopped: sources are finite and never block, so it gets an     *)
+(*          item or the end                                                    *)
+(*   live   the consumers among them whose own output is not closed and whose  *)
+(*          own context is not cancelled (names the finding key)               *)
 (*   run    worker groups: "must" = Run must have returned, "may" otherwise    *)
 (*   leak   no library goroutine may remain (C04; premise per DESIGN.md 5.0:   *)
 (*          input exhausted and drained, or Close on every output, or the      *)
-(*          context of the first advance cancelled - and no user function is   *)
-(*          still held)                                                        *)
+(*          context of the first advance cancelled - which is what Close of    *)
+(*          the output that MADE the first advance does to the context the     *)
+(*          background work was started with - and no user function is held)   *)
+(*   calls  upper bound on the number of user-function invocations the run can *)
+(*          legitimately need in total (every item once, one end-of-input call *)
+(*          per worker, one call per worker that meets the cancelled context)  *)
 (*   full   the run completed undisturbed: delivered bag = input bag (C01)     *)
 (*   stop   how the consumer stopped so far (names the finding key)            *)
 (*                                                                            *)
@@ -44,7 +84,7 @@
 (* meaningful (which items are held in user functions after each step is       *)
 (* deterministic for a sequential source: workers take items in input order).  *)
 (* It refines the Impl specs at their quiescent states:                        *)
-(*   must / NoStall, eofs / EofComplete, leak / AllDone,                       *)
+(*   must / NoStall + NoDeadlock, eofs / EofComplete, leak / AllDone,          *)
 (*   must after stop / BlockedConsumerReleased, may / Conservation.            *)
 (* Where the real run diverges from the reference (a release names an item     *)
 (* that is not held) the replay is inconclusive, never a violation.            *)
@@ -55,84 +95,109 @@ CONSTANTS Constructs,   \* subset of the construct names below
           MaxN, MaxK,   \* input sizes 0..MaxN, worker / output / source counts 1..MaxK
           AllowStop,    \* BOOLEAN: schedules may Close / cancel (C04); FALSE = undisturbed runs only (C01)
           RaceReps,     \* repetitions of an unsynchronised stop-versus-advance race per behaviour (0 = none)
+          FillReps,     \* repetitions of a stop that lands while the senders fill the pipe (0 = none)
+          MaxBurst,     \* burst releases per behaviour (0 = none)
+          BurstReps,    \* repetitions of a schedule that contains a burst
+          Opts,         \* option strings explored with context-respecting user functions ({} = none)
           Depth         \* maximal number of driver steps of a behaviour
 
-Stage   == {"map", "gen"}                         \* user function + output iterator
+Stage   == {"map", "gen", "pbufg"}                \* user function + output iterator
 Group   == {"pp", "pfe", "worker"}                \* user function, no output (a Worker that is Run)
 Passive == {"pbuf", "buffer", "split", "merge", "multiread",
             "chain", "mslices", "msiters", "bufchan", "dtmap", "adtmap"}
 NoClose == {"bufchan"}                            \* output is a raw channel: it cannot be closed by the consumer
+\* pbufg = the body of ParallelBuffer (ProcessParallel over a Blocking(chan, cap).Processor(), closed by a
+\* PostHook, input closed by the output's hook) with a yield point in front of the send: several senders
+\* on ONE BUFFERED pipe whose arrival the schedule controls
 
 Min(a, b) == IF a < b THEN a ELSE b
 Max(a, b) == IF a > b THEN a ELSE b
 
-\* the configurations explored: construct, input size, width, buffer size
+\* the configurations explored: construct, input size, width, buffer size, user-function kind, options
 Ks(c)   == IF c = "buffer" \/ c = "bufchan" THEN {1}
            ELSE IF c \in {"dtmap", "adtmap"} THEN 1..3        \* Iterator / Keys / Values
            ELSE 1..MaxK
-Caps(c) == IF c = "buffer" \/ c = "bufchan" THEN 0..2 ELSE {0}
-Cfgs == {[c |-> c, n |-> n, k |-> k, cap |-> cap,
+Caps(c) == IF c = "buffer" \/ c = "bufchan" THEN 0..2 ELSE IF c = "pbufg" THEN 1..2 ELSE {0}
+Fns(c)  == {[opt |-> "", cb |-> "plain"]} \cup
+           (IF c \in Stage \cup Group THEN {[opt |-> o, cb |-> "ctx"] : o \in Opts} ELSE {})
+Cfgs == UNION {{[c |-> c, n |-> n, k |-> k, cap |-> cap, opt |-> f.opt, cb |-> f.cb,
           \* C01 demands input order for Buffer and for a single worker / source / output only
-          ord |-> (c = "buffer") \/ (c \in {"map", "gen", "pbuf", "merge", "split"} /\ k = 1),
+          ord |-> (c = "buffer") \/ (c \in {"map", "gen", "pbuf", "pbufg", "merge", "split"} /\ k = 1),
           fn  |-> c \in Stage \cup Group,
           out |-> IF c \in Group THEN 0 ELSE IF c = "split" THEN k ELSE 1]
-         : c \in Constructs, n \in 0..MaxN, k \in 1..Max(3, MaxK), cap \in 0..2}
+         : n \in 0..MaxN, k \in 1..Max(3, MaxK), cap \in 0..2, f \in Fns(c)} : c \in Constructs}
 CfgOK(x) == x.k \in Ks(x.c) /\ x.cap \in Caps(x.c)
 
 VARIABLES cfg,        \* the configuration of this behaviour
           started,    \* the first advance / Run happened: background work exists
+          first,      \* the consumer that made the first advance (0 = none yet): the background work runs
+                      \* under the context of ITS output (Producer.WithCancel binds the first call's context)
           nent,       \* items 1..nent were handed to user functions
           held,       \* items whose user function has not returned
-          rel,        \* items whose user function returned
+          rel,        \* items whose user function returned (normally)
           avail,      \* results computed but not yet received by the consumer (blocked sends + buffer)
           ngot,       \* number of items delivered to consumers
           pend,       \* consumers blocked in an advance
           ended,      \* consumers that saw the end of their output
           closed,     \* outputs on which Close was called
-          cancelled,  \* the consumers' context is cancelled
+          cancelled,  \* the parent context is cancelled
+          ccan,       \* consumers whose own context is cancelled
+          nb,         \* burst releases so far
           phase,      \* "run" | "stopped" | "over"
           steps       \* the schedule with its allowed observations
 
-vars == <<cfg, started, nent, held, rel, avail, ngot, pend, ended, closed, cancelled, phase, steps>>
-view == <<cfg, started, nent, held, rel, avail, ngot, pend, ended, closed, cancelled, phase>>
+vars == <<cfg, started, first, nent, held, rel, avail, ngot, pend, ended, closed, cancelled, ccan, nb, phase, steps>>
+view == <<cfg, started, first, nent, held, rel, avail, ngot, pend, ended, closed, cancelled, ccan, nb, phase>>
 
 Items     == 1..cfg.n
 Outs      == 1..cfg.out
 Consumers == IF cfg.c \in Group THEN {} ELSE IF cfg.c \in {"split", "multiread"} THEN 1..cfg.k ELSE {1}
 OutOf(c)  == IF cfg.c = "split" THEN c ELSE 1
-PipeCap   == IF cfg.c = "gen" THEN 2 * cfg.k + 1 ELSE 0
+PipeCap   == IF cfg.c = "gen" THEN 2 * cfg.k + 1 ELSE IF cfg.c = "pbufg" THEN cfg.cap ELSE 0
+CtxCb     == cfg.cb = "ctx"
 
 Init == /\ cfg \in {x \in Cfgs : CfgOK(x)}
-        /\ started = FALSE /\ nent = 0 /\ held = {} /\ rel = {} /\ avail = 0 /\ ngot = 0
-        /\ pend = {} /\ ended = {} /\ closed = {} /\ cancelled = FALSE /\ phase = "run" /\ steps = <<>>
+        /\ started = FALSE /\ first = 0 /\ nent = 0 /\ held = {} /\ rel = {} /\ avail = 0 /\ ngot = 0
+        /\ pend = {} /\ ended = {} /\ closed = {} /\ cancelled = FALSE /\ ccan = {} /\ nb = 0
+        /\ phase = "run" /\ steps = <<>>
 
 (* ------------------------------------------------------------- observations *)
 
-Stopped(cl, cn) == cn \/ cl # {}
-Partial(cl, cn) == cl # {} /\ cl # Outs /\ ~cn
-StopName(cl, cn, en) ==
+FillModes == {"race-fill-close", "race-fill-cancel"}
+Stopped(cl, cn, cc) == cn \/ cl # {} \/ cc # {}
+\* consumer c's own advance returns at once: its output is closed or its context is cancelled
+Dead(c, cl, cn, cc) == cn \/ c \in cc \/ OutOf(c) \in cl
+\* the context the background work was started with is cancelled
+BgStopped(f, cl, cn, cc) == cn \/ (f # 0 /\ (f \in cc \/ OutOf(f) \in cl))
+StopName(cl, cn, cc, en) ==
     IF cn /\ cl # {} THEN "close+cancel"
     ELSE IF cn THEN "cancel"
+    ELSE IF cc # {} THEN (IF cl # {} THEN "close+cancel-some" ELSE "cancel-some")
     ELSE IF cl # {} THEN (IF cfg.out > 0 /\ cl = Outs THEN "close" ELSE "close-some")
     ELSE IF en # {} THEN "exhaust" ELSE ""
 
-\* C04 premise (DESIGN.md 5.0): exhausted and drained / Close on every output / context cancelled
-Obliged(cl, cn, en, ne, he) ==
+\* C04 premise (DESIGN.md 5.0): exhausted and drained / Close on every output / context of the first
+\* advance cancelled (by the client, or by Close of the output that made the first advance)
+Obliged(f, cl, cn, cc, en, ne, he) ==
     IF cfg.c \in Group THEN cn \/ (started' /\ ne = cfg.n /\ he = {})
-    ELSE cn \/ (cfg.out > 0 /\ cl = Outs) \/ (~Stopped(cl, cn) /\ en # {})
+    ELSE BgStopped(f, cl, cn, cc) \/ (cfg.out > 0 /\ cl = Outs) \/ (~Stopped(cl, cn, cc) /\ en # {})
 
-Obs(op, arg) ==
-    [op   |-> op, arg |-> arg,
+Obs(op, arg, set) ==
+    [op   |-> op, arg |-> arg, set |-> set,
      may  |-> IF cfg.c \in Stage THEN rel' ELSE IF cfg.c \in Group THEN {} ELSE Items,
-     eofs |-> IF Stopped(closed', cancelled') THEN Consumers ELSE ended',
-     \* after a partial Close of Split only the consumers of closed outputs are judged
-     must |-> {c \in Consumers \ pend' : Partial(closed', cancelled') => OutOf(c) \in closed'},
+     eofs |-> IF Stopped(closed', cancelled', ccan') THEN Consumers ELSE ended',
+     must |-> Consumers \ pend',
+     live |-> {c \in Consumers : ~Dead(c, closed', cancelled', ccan')},
      run  |-> IF cfg.c \in Group /\ started' /\ held' = {} /\ (cancelled' \/ nent' = cfg.n) THEN "must" ELSE "may",
-     leak |-> Obliged(closed', cancelled', ended', nent', held') /\ held' = {},
+     leak |-> Obliged(first', closed', cancelled', ccan', ended', nent', held') /\ held' = {},
+     calls |-> cfg.n + 2 * cfg.k,
      full |-> op \in {"finish", "freerun"},
-     stop |-> IF op \in {"finish", "freerun", "race-start"} THEN "exhaust" ELSE StopName(closed', cancelled', ended')]
+     stop |-> IF op \in {"finish", "freerun", "race-start"} THEN "exhaust"
+              ELSE IF op \in FillModes THEN op
+              ELSE StopName(closed', cancelled', ccan', ended')]
 
-Rec(op, arg) == steps' = Append(steps, Obs(op, arg))
+Rec(op, arg)        == steps' = Append(steps, Obs(op, arg, {}))
+RecSet(op, arg, set) == steps' = Append(steps, Obs(op, arg, set))
 
 (* ------------------------------------------------------------- reference semantics *)
 
@@ -145,16 +210,18 @@ Refill(h, av, ne) ==
 \* consumer c issues one advance
 Read(c) ==
     /\ phase # "over" /\ c \in Consumers /\ c \notin pend
-    /\ IF c \in ended \/ cancelled \/ OutOf(c) \in closed
-         THEN \* the output has ended for c / was stopped: the advance returns the end at once, nothing starts
+    /\ IF c \in ended \/ Dead(c, closed, cancelled, ccan)
+         THEN \* the output has ended for c / c was stopped: the advance returns the end at once, nothing starts
               /\ ended' = ended \cup {c}
-              /\ UNCHANGED <<started, nent, held, avail, ngot, pend>>
-         ELSE IF Stopped(closed, cancelled)
-         THEN \* Split after a partial Close: items or the end, either is allowed; the advance returns
-              /\ started' = TRUE /\ UNCHANGED <<nent, held, avail, ngot, pend, ended>>
+              /\ UNCHANGED <<started, first, nent, held, avail, ngot, pend>>
+         ELSE IF BgStopped(first, closed, cancelled, ccan)
+         THEN \* a live sibling after the background work was stopped: the pipe was closed behind the
+              \* reader, the advance returns (the end, or an item that was still in flight)
+              /\ ended' = ended \cup {c}
+              /\ UNCHANGED <<started, first, nent, held, avail, ngot, pend>>
          ELSE IF cfg.c \in Stage
          THEN LET f == IF started THEN [held |-> held, nent |-> nent] ELSE Refill(held, avail, nent) IN
-              /\ started' = TRUE
+              /\ started' = TRUE /\ first' = (IF first = 0 THEN c ELSE first)
               /\ IF avail > 0
                    THEN LET g == Refill(f.held, avail - 1, f.nent) IN
                         /\ avail' = avail - 1 /\ ngot' = ngot + 1
@@ -164,12 +231,13 @@ Read(c) ==
                         /\ UNCHANGED <<avail, ngot, pend>>
                    ELSE /\ pend' = pend \cup {c} /\ held' = f.held /\ nent' = f.nent
                         /\ UNCHANGED <<avail, ngot, ended>>
-         ELSE \* passive constructs over a finite, never-blocking source: an item while any is left, then the end
-              /\ started' = TRUE
+         ELSE \* passive constructs over a finite, never-blocking source: an item while any is left, then the
+              \* end (also after a sibling was stopped whose context the background work does not use)
+              /\ started' = TRUE /\ first' = (IF first = 0 THEN c ELSE first)
               /\ IF ngot < cfg.n THEN ngot' = ngot + 1 /\ UNCHANGED ended
                                  ELSE ended' = ended \cup {c} /\ UNCHANGED ngot
               /\ UNCHANGED <<nent, held, avail, pend>>
-    /\ UNCHANGED <<cfg, rel, closed, cancelled, phase>>
+    /\ UNCHANGED <<cfg, rel, closed, cancelled, ccan, nb, phase>>
     /\ Rec("read", c)
 
 \* worker groups: Run the Worker
@@ -177,14 +245,14 @@ Run == /\ phase # "over" /\ cfg.c \in Group /\ ~started
        /\ started' = TRUE
        /\ IF cancelled THEN UNCHANGED <<held, nent>>
           ELSE LET f == Refill(held, 0, nent) IN held' = f.held /\ nent' = f.nent
-       /\ UNCHANGED <<cfg, rel, avail, ngot, pend, ended, closed, cancelled, phase>>
+       /\ UNCHANGED <<cfg, first, rel, avail, ngot, pend, ended, closed, cancelled, ccan, nb, phase>>
        /\ Rec("run", 0)
 
 \* the user function holding item i returns
 Release(i) ==
     /\ phase # "over" /\ i \in held
     /\ rel' = rel \cup {i}
-    /\ IF Stopped(closed, cancelled)
+    /\ IF Stopped(closed, cancelled, ccan)
          THEN held' = held \ {i} /\ UNCHANGED <<nent, avail, ngot, pend>>   \* its worker finds the run stopped and leaves
          ELSE IF cfg.c \in Group
          THEN LET f == Refill(held \ {i}, 0, nent) IN
@@ -194,8 +262,33 @@ Release(i) ==
               /\ pend' = {} /\ ngot' = ngot + 1 /\ held' = f.held /\ nent' = f.nent /\ UNCHANGED avail
          ELSE LET f == Refill(held \ {i}, avail + 1, nent) IN
               /\ avail' = avail + 1 /\ held' = f.held /\ nent' = f.nent /\ UNCHANGED <<ngot, pend>>
-    /\ UNCHANGED <<cfg, started, ended, closed, cancelled, phase>>
+    /\ UNCHANGED <<cfg, started, first, ended, closed, cancelled, ccan, nb, phase>>
     /\ Rec("rel", i)
+
+\* the user functions holding the items of S return at the same instant (no quiescence in between); the
+\* abstract outcome is that of releasing them one by one: one result goes straight to a blocked consumer,
+\* the others into the pipe (buffer, then blocked sends), and the freed workers take the next items
+\* A burst is CONTENDED when more results arrive than the pipe has room for: the senders race for its
+\* last free slot(s) and the losers stay behind as blocked senders.  The race is decided by the Go
+\* scheduler, so a schedule with a contended burst is repeated: BurstReps times for a buffered pipe
+\* (where "is there room" and "send" are separate steps of a sender), 3 times for a rendezvous.
+BReps(a) == IF a > PipeCap THEN (IF PipeCap > 0 THEN BurstReps ELSE Min(3, BurstReps)) ELSE 1
+ReleaseBurst(S) ==
+    /\ phase = "run" /\ nb < MaxBurst /\ S \subseteq held /\ Cardinality(S) >= 2
+    /\ rel' = rel \cup S /\ nb' = nb + 1
+    /\ UNCHANGED <<cfg, started, first, ended, closed, cancelled, ccan, phase>>
+    /\ IF cfg.c \in Group
+         THEN LET f == Refill(held \ S, 0, nent) IN
+              /\ held' = f.held /\ nent' = f.nent /\ UNCHANGED <<avail, ngot, pend>>
+              /\ RecSet("brel", 1, S)
+         ELSE LET d == IF pend # {} THEN 1 ELSE 0
+                  a == avail + Cardinality(S) - d
+                  f == Refill(held \ S, a, nent) IN
+              /\ pend' = {} /\ ngot' = ngot + d /\ avail' = a /\ held' = f.held /\ nent' = f.nent
+              /\ RecSet("brel", BReps(a), S)
+
+\* a user function that respects its context returns once the stop cancelled that context
+AfterStop(h) == IF CtxCb THEN {} ELSE h
 
 \* Close output o (any number of times)
 Close(o) ==
@@ -203,77 +296,92 @@ Close(o) ==
     /\ closed' = closed \cup {o}
     /\ pend' = {c \in pend : OutOf(c) # o}                         \* a blocked consumer of o is released
     /\ ended' = ended \cup {c \in pend : OutOf(c) = o}
+    \* constructs with a user function have one output: closing it cancels the workers' context
+    /\ held' = (IF started /\ cfg.fn THEN AfterStop(held) ELSE held)
     /\ phase' = "stopped"
-    /\ UNCHANGED <<cfg, started, nent, held, rel, avail, ngot, cancelled>>
+    /\ UNCHANGED <<cfg, started, first, nent, rel, avail, ngot, cancelled, ccan, nb>>
     /\ Rec("close", o)
 
-\* cancel the context the consumers pass to their advances / the Worker runs with
+\* cancel the parent context: every consumer's advance / the Worker runs with a context derived from it
 Cancel ==
     /\ AllowStop /\ phase # "over" /\ ~cancelled
     /\ cancelled' = TRUE /\ pend' = {} /\ ended' = ended \cup pend /\ phase' = "stopped"
-    /\ UNCHANGED <<cfg, started, nent, held, rel, avail, ngot, closed>>
+    /\ held' = (IF started THEN AfterStop(held) ELSE held)
+    /\ UNCHANGED <<cfg, started, first, nent, rel, avail, ngot, closed, ccan, nb>>
     /\ Rec("cancel", 0)
+
+\* cancel the context of ONE consumer (constructs whose outputs / readers have independent consumers)
+CancelOne(c) ==
+    /\ AllowStop /\ phase # "over" /\ ~cancelled /\ Cardinality(Consumers) > 1 /\ c \in Consumers \ ccan
+    /\ ccan' = ccan \cup {c} /\ pend' = pend \ {c} /\ ended' = ended \cup (pend \cap {c}) /\ phase' = "stopped"
+    /\ UNCHANGED <<cfg, started, first, nent, held, rel, avail, ngot, closed, cancelled, nb>>
+    /\ Rec("cancel", c)
 
 \* after a stop: release whatever is still held; ends the behaviour
 ReleaseAll ==
     /\ phase = "stopped"
     /\ rel' = rel \cup held /\ held' = {} /\ phase' = "over"
-    /\ UNCHANGED <<cfg, started, nent, avail, ngot, pend, ended, closed, cancelled>>
+    /\ UNCHANGED <<cfg, started, first, nent, avail, ngot, pend, ended, closed, cancelled, ccan, nb>>
     /\ Rec("relall", 0)
 
 \* undisturbed completion: release everything, drain every consumer; ends the behaviour
-Finish ==
-    /\ phase = "run" /\ (cfg.c \in Group => started)
+Complete ==
     /\ started' = TRUE /\ rel' = (IF cfg.fn THEN Items ELSE rel) /\ held' = {}
+    /\ first' = (IF first = 0 /\ Consumers # {} THEN 1 ELSE first)
     /\ nent' = (IF cfg.fn THEN cfg.n ELSE nent)
     /\ avail' = 0 /\ ngot' = (IF cfg.out > 0 THEN cfg.n ELSE ngot)
     /\ pend' = {} /\ ended' = Consumers /\ phase' = "over"
-    /\ UNCHANGED <<cfg, closed, cancelled>>
+    /\ UNCHANGED <<cfg, closed, cancelled, ccan, nb>>
+
+Finish ==
+    /\ phase = "run" /\ (cfg.c \in Group => started)
+    /\ Complete
     /\ Rec("finish", 0)
 
 \* the same completion without any stepping: the interleaving is the real scheduler's
 FreeRun ==
     /\ phase = "run" /\ steps = <<>>
-    /\ started' = TRUE /\ rel' = (IF cfg.fn THEN Items ELSE rel) /\ held' = {}
-    /\ nent' = (IF cfg.fn THEN cfg.n ELSE nent)
-    /\ avail' = 0 /\ ngot' = (IF cfg.out > 0 THEN cfg.n ELSE ngot)
-    /\ pend' = {} /\ ended' = Consumers /\ phase' = "over"
-    /\ UNCHANGED <<cfg, closed, cancelled>>
+    /\ Complete
     /\ Rec("freerun", 0)
 
 \* undisturbed runs with concurrent first advances, repeated on fresh instances (C01: every interleaving
 \* of the hand-off, including the lazy setup); the per-repetition bag equality is judged by the harness
 RaceStart ==
-    /\ RaceReps > 0 /\ phase = "run" /\ steps = <<>>
+    /\ RaceReps > 0 /\ phase = "run" /\ steps = <<>> /\ cfg.cb = "plain"
     /\ cfg.n = MaxN /\ \A k \in Ks(cfg.c) : k <= cfg.k
-    /\ started' = TRUE /\ rel' = (IF cfg.fn THEN Items ELSE rel) /\ held' = {}
-    /\ nent' = (IF cfg.fn THEN cfg.n ELSE nent)
-    /\ avail' = 0 /\ ngot' = (IF cfg.out > 0 THEN cfg.n ELSE ngot)
-    /\ pend' = {} /\ ended' = Consumers /\ phase' = "over"
-    /\ UNCHANGED <<cfg, closed, cancelled>>
+    /\ Complete
     /\ Rec("race-start", RaceReps)
 
 \* an unsynchronised stop against free-running consumers, repeated on fresh instances: whatever the
 \* interleaving, every advance returns (without panicking) and nothing of the library remains
+\* where SEVERAL workers send into ONE BUFFERED pipe "is there room" and "send" can be told apart by a
+\* second sender: that window is the narrowest of all, it gets ten times the repetitions
+SharedBuffered == {"pbuf", "pbufg", "gen"}
+FillArg == IF cfg.c \in SharedBuffered THEN 10 * FillReps ELSE FillReps
 Race(mode) ==
-    /\ AllowStop /\ RaceReps > 0 /\ phase = "run" /\ steps = <<>>
+    /\ AllowStop /\ phase = "run" /\ steps = <<>> /\ cfg.cb = "plain"
+    /\ (IF mode \in FillModes THEN FillReps ELSE RaceReps) > 0
     \* the races are repeated many times: one configuration per construct (the largest) suffices
     /\ cfg.n = MaxN /\ \A k \in Ks(cfg.c) : k <= cfg.k
-    /\ (mode = "race-close" => cfg.c \notin NoClose /\ cfg.out > 0)
+    /\ (mode \in {"race-close", "race-fill-close"} => cfg.c \notin NoClose /\ cfg.out > 0)
     /\ started' = TRUE /\ phase' = "over"
-    /\ closed' = (IF mode = "race-close" THEN Outs ELSE closed)
-    /\ cancelled' = (mode = "race-cancel")
+    /\ first' = (IF Consumers # {} THEN 1 ELSE first)
+    /\ closed' = (IF mode \in {"race-close", "race-fill-close"} THEN Outs ELSE closed)
+    /\ cancelled' = (mode \in {"race-cancel", "race-fill-cancel"})
     /\ ended' = Consumers /\ pend' = {} /\ held' = {}
     /\ rel' = (IF cfg.fn THEN Items ELSE rel)
-    /\ UNCHANGED <<cfg, nent, avail, ngot>>
-    /\ Rec(mode, RaceReps)
+    /\ UNCHANGED <<cfg, nent, avail, ngot, ccan, nb>>
+    /\ Rec(mode, IF mode \in FillModes THEN FillArg ELSE RaceReps)
 
 Step == \/ \E c \in Consumers : Read(c)
         \/ FreeRun \/ RaceStart \/ Race("race-close") \/ Race("race-cancel")
+        \/ Race("race-fill-close") \/ Race("race-fill-cancel")
         \/ Run
         \/ \E i \in Items : Release(i)
+        \/ \E S \in SUBSET held : ReleaseBurst(S)
         \/ \E o \in Outs : Close(o)
         \/ Cancel \/ ReleaseAll \/ Finish
+        \/ \E c \in Consumers : CancelOne(c)
 
 \* the last step of a bounded behaviour is a terminal one
 Next == /\ Len(steps) < Depth
@@ -287,8 +395,10 @@ Inv == /\ held \subseteq 1..nent /\ (phase # "over" => rel \subseteq 1..nent) /\
        /\ (cfg.c \in Stage => ngot + avail <= Cardinality(rel))
        /\ Cardinality(held) <= cfg.k
        /\ pend \subseteq Consumers /\ pend \cap ended = {}
-       \* NoStall at the abstract level: a blocked consumer always waits for a held user function
+       \* NoStall / NoDeadlock at the abstract level: a blocked consumer always waits for a held user function
        /\ (pend # {} => held # {})
+       /\ (first # 0 => first \in Consumers /\ started)
+       /\ (ccan # {} => Cardinality(Consumers) > 1)
 
 (* ------------------------------------------------------------- behaviour emission *)
 Beh(s) == [cfg |-> cfg, steps |-> s]
